@@ -16,7 +16,8 @@ TARGETS = [S + "_process",
                                             ensures={"one_status_packet": "ghost('resp_count') == old(ghost('resp_count')) + 1 and ghost('resp_type') == 101 and ghost('resp_id') == request_number"},
                                             raises={"Exception": "ghost('resp_count') == old(ghost('resp_count'))"},
                                             returns="none", modifies=[]))]
-REPLAY = {"*": "c30.replay_process", "_check_file": "c30.replay_check_file"}
+REPLAY = {"*": "c30.replay_process", "_check_file": "c30.replay_check_file",
+          "answers_are_taken_off_the_wire": "c30.listdir_iter_with_pipelined_write"}
 MAX_PATHS = 20000
 
 
@@ -42,6 +43,26 @@ def setup(E):
                                  "msg.packet.pos": "len(msg.packet.getvalue()) + len(fn('packed_attrs', 'bytes', self))"})],
                modifies=["msg.packet.buf", "msg.packet.pos"], raises={"struct.error": "True"})
 
+def lemmas(E):
+    """structural: on the client, answers are taken off the wire only by the dispatch loop SFTPClient._read_response (which
+    returns the awaited one and hands every other to its owner); a second reader would take answers that belong to
+    someone else and leave their owners waiting"""
+    import ast
+    import z3
+    out = []
+    found = 0
+    for qn, fi in sorted(E.src.funcs.items()):
+        if fi.module not in ("paramiko.sftp_client", "paramiko.sftp_file") or "::" in qn:
+            continue
+        for n in ast.walk(fi.node):
+            if isinstance(n, ast.Call) and isinstance(n.func, ast.Attribute) and n.func.attr == "_read_packet":
+                found += 1
+                out.append(("structure::answers_are_taken_off_the_wire_only_by_the_dispatch_loop(%s)" % qn, [],
+                            z3.BoolVal(qn.endswith("SFTPClient._read_response"))))
+    out.append(("structure::the_dispatch_loop_reads_packets", [], z3.BoolVal(found >= 1)))
+    return out
+
+
 CLAIMED = True
 LEVEL_TEXT = ("Proof for the server side: _process, for every request type 0..255 and every message, either returns normally "
               "having caused exactly one response packet whose id is the request's and whose type is STATUS or the type "
@@ -54,12 +75,14 @@ LEVEL_TEXT = ("Proof for the server side: _process, for every request type 0..25
               "loops terminate are proved under C32. Client side, two safety clauses behind 'never blocks forever' (contracts shared "
               "with C29): SFTPClient._async_request registers a request, under the number it returns and the object given, "
               "before it goes out on the wire; SFTPClient._read_response returns only the awaited answer and hands every other "
-              "answer it takes off the wire to the owner of that very request.")
+              "answer it takes off the wire to the owner of that very request; nothing else on the client takes answers off the "
+              "wire (structural obligation over sftp_client.py / sftp_file.py).")
 LEVEL_NOTE = ("Assumed (generic contracts): the user's SFTPServerInterface / SFTPHandle callbacks return values or raise; "
               "_send_handle_response, _open_folder and _read_folder send one packet of their two possible types (not yet "
               "verified against their bodies); start_subsystem's catch-all is read, not verified. The client-side half of the "
               "statement (a client never blocks forever when every request is answered) is liveness over threads and waits: "
               "only the two safety clauses above (registration before sending, delivery to the owner) are decided; together "
-              "with C28's retire clauses and C29's status collection they are what the waits rely on. SFTPClient.listdir_iter "
-              "reads raw packets past _expecting (read, not under contract).")
+              "with C28's retire clauses and C29's status collection they are what the waits rely on. A structural obligation "
+              "keeps the dispatch loop the only reader of answers (found and repaired: listdir_iter read raw packets, fix "
+              "3e458fc).")
 TECHNIQUE = "deductive: ghost response counter/type over the dispatch function, symbolic request type, z3"
